@@ -42,6 +42,14 @@ def literal_keys_read(f, dictname="results"):
 
 def run(ctx):
     ctx.attempt(save_restore_round_trip_rule, ctx)
+    from . import c17 as _c17
+
+    # 'brings back exactly the ... internal variables that were current when iteration i was saved': the history field of the damage problem
+    ctx.attempt(_c17.history_protocol_rule, ctx, "R15.17")
+    from ..shared import dump_complete_rule as _dump_complete_rule
+
+    # 'written to disk ... brings back exactly': what is pickled is the finished object
+    ctx.attempt(_dump_complete_rule, ctx, "R15.18", lambda f: f.qualname.startswith("EasyFEA."), 2)
     from ..shared import mutable_default_rule as _mutable_default_rule
 
     # 'later solves never alter stored iterations' / 'fields ... that were current when iteration i was saved': nothing a
